@@ -176,6 +176,10 @@ def do_post(app, seen, body, ctype, acc, framing):
         env = wsgi.environ('POST', '/r/' + acc, body=body, ctype=ctype, clen=max(0, len(body) - 2))
     else:
         env = wsgi.environ('POST', '/r/' + acc, body=body, ctype=ctype, clen=len(body) + 3)
+    # API clients ask for JSON error reports: every third request (a function of the bytes sent) carries such an Accept header
+    import zlib
+    if zlib.crc32(body + framing.encode() + acc.encode()) % 3 == 0:
+        env['HTTP_ACCEPT'] = 'application/json'
     seen.clear()
     return wsgi.call(app, env)
 
